@@ -2,6 +2,7 @@ package main
 
 import (
 	"fmt"
+	"io"
 	"time"
 
 	tally "github.com/uber-go/tally/v4"
@@ -170,11 +171,25 @@ func c04Case(c *mon.Ctx, r *mon.Rand) {
 			}
 		}
 		if c.Guard("panic/"+kind, func() interface{} { return desc }, func() {
-			use(fin, final, metric, 2)   // same metrics again
-			use(fin, final, metric2, 3)  // new metrics: a cached reporter sees the scope's tags again
+			use(fin, final, metric, 2)  // same metrics again
+			use(fin, final, metric2, 3) // new metrics: a cached reporter sees the scope's tags again
 			use(root, rootID, metric2, 3)
 			if ts == nil {
 				tally.VerifReportPass(root)
+			}
+			// half of the runs: close the derived scope and derive it again from
+			// pristine arguments (the registry's re-acquire paths): same name, same tags
+			if ts == nil && fin != root && r.Bool() {
+				if cl, ok := fin.(io.Closer); ok {
+					cl.Close()
+				}
+				if r.Bool() {
+					tally.VerifReportPass(root)
+				}
+				sc2 := prog.clone().apply(root)
+				use(sc2[len(sc2)-1], final, metric, 4)
+				tally.VerifReportPass(root)
+				c.Class("runs-with-close-and-derive-again", 1)
 			}
 		}) {
 			continue
